@@ -30,14 +30,14 @@ Theorem C08_replica_needs_primary : forall i, fst (iterate i) = OReplica ->
 Proof. exact replica_needs_primary. Qed.
 
 (* the primary's loop: the lease is destroyed on every exit except a completed handoff; a handoff
-   completes only for a connected target; failing renewals end the role between TTL and TTL + 1 s after
-   the last successful one; a renewal that reports the lease gone ends it at once *)
+   completes only for a connected target; failing renewals end the role exactly one TTL after the last
+   successful one - never later: the lease runs out then; a renewal that reports the lease gone ends it at once *)
 Theorem C08_primary_run : forall ttl evs,
   let '(x, closed, stop) := primary_run ttl evs in
   (closed = true <-> (x <> XHandedOff /\ x <> XStillPrimary)) /\
   (x = XHandedOff -> In (PHandoff true true) evs) /\
-  (x = XExpired -> stop <= ttl + retry_ms) /\
-  (x = XExpired -> ~ In PRenewExpired evs -> ~ In PHandoffLeaseGone evs -> ttl < stop).
+  (x = XExpired -> stop <= ttl) /\
+  (x = XExpired -> ~ In PRenewExpired evs -> ~ In PHandoffLeaseGone evs -> stop = ttl).
 Proof. exact primary_run_facts. Qed.
 (* a handoff request is served between two renewals: if the renewal made before the lease id is passed on reports the lease
    gone the role ends at once; if the handoff fails for any other reason nothing changes - the next renewal is not postponed,
@@ -69,7 +69,7 @@ Example C08_nonvacuous :
    iter_obs {| i_candidate := true; i_local_cid := true; i_cid := CidDifferent; i_handoff := None; i_info1 := InfoPresent; i_acquire := AcqOk; i_info2 := InfoAbsent |},
    primary_run 2000 [PRenewOk; PRenewErr; PRenewErr; PRenewErr],
    primary_run 2000 [PHandoff false true; PHandoff true true])
-  = ([1; 1; 2; 3], [0; 1; 2], [0; 1], (XExpired, true, 3000), (XHandedOff, false, 0)).
+  = ([1; 1; 2; 3], [0; 1; 2], [0; 1], (XExpired, true, 2000), (XHandedOff, false, 0)).
 Proof. vm_compute. reflexivity. Qed.
 
 (* the same holds at the last moment: the cluster id the lease service has right after the acquisition is compared again
